@@ -414,6 +414,27 @@ pub fn gen_history3(rng: &mut Rng) -> (Vec<Sx>, Vec<Sx>, String) {
             add(rename_term(&t, &|s| if s == a { b } else if s == b { a } else { s }), &mut terms, &mut ops, &mut hterm);
         }
     }
+    // twins under a binder: a commutative body that mixes the bound slot with two free ones, in both arrangements of the free
+    // slots (the symmetry of the body class exchanges the bound argument with a free one; a self-symmetry of the binder's class must
+    // never exchange the two free slots): sum i. (p + i*q)  versus  sum i. (q + i*p), also under let, plus a parent over both
+    let mut twins = false;
+    if rng.chance(1, 4) {
+        twins = true;
+        let (p, q, i) = (1u64, 2u64, 9u64);
+        let body = |rng: &mut Rng, a: u64, b: u64| -> Sx {
+            match rng.below(3) {
+                0 => t_add(t_var(a), t_mul(t_var(i), t_var(b))),
+                1 => t_mul(t_add(t_var(i), t_var(a)), t_var(b)),
+                _ => t_add(t_mul(t_var(a), t_var(i)), t_var(b)),
+            }
+        };
+        let mut r2 = Rng::new(rng.below(1 << 30), 7); let mut r3 = Rng(r2.0);
+        let (b1, b2) = (body(&mut r2, p, q), body(&mut r3, q, p));
+        let (t1, t2) = if rng.chance(1, 2) { (t_sum(i, b1), t_sum(i, b2)) } else { let k = rng.below(5); (t_let(i, b1, t_num(k)), t_let(i, b2, t_num(k))) };
+        add(t1.clone(), &mut terms, &mut ops, &mut hterm);
+        add(t2.clone(), &mut terms, &mut ops, &mut hterm);
+        match rng.below(3) { 0 => { add(t_add(t1, t_mul(t_num(4), t2)), &mut terms, &mut ops, &mut hterm); } 1 => { add(t_mul(t1, t2), &mut terms, &mut ops, &mut hterm); } _ => {} }
+    }
     // unions that hold in F_p: a term and the result of one law applied by hand at the root
     let nun = if rng.chance(1, 3) { 0 } else { rng.range(1, 2) };
     let motif = if nun == 0 { "no-unions" } else { "unions" };
@@ -434,7 +455,7 @@ pub fn gen_history3(rng: &mut Rng) -> (Vec<Sx>, Vec<Sx>, String) {
         let b = add(r, &mut terms, &mut ops, &mut hterm);
         ops.push(lst(vec![sym("union"), num(a), num(b)]));
     }
-    (terms, ops, motif.to_string())
+    (terms, ops, if twins { format!("{}+twins", motif) } else { motif.to_string() })
 }
 
 fn variants_of(t: &Sx, out: &mut Vec<u64>) {
@@ -462,6 +483,7 @@ pub fn gen(a: &Args) -> Vec<String> {
         // one more rule guarded by and / or / not whose left-hand side head occurs in the terms
         let comb: Vec<usize> = relevant.iter().cloned().filter(|i| *i >= FIRST_COMB).collect();
         if !comb.is_empty() && rng.chance(1, 2) { let i = *rng.pick(&comb) as u64; if !chosen.contains(&i) { chosen.push(i); } }
+        if motif.ends_with("twins") { for i in [0u64, 1] { if !chosen.contains(&i) { chosen.push(i); } } }   // commutativity of add and mul
         let mut rules = vec![sym("rules")];
         for i in &chosen {
             let mut r = FPPOOL[*i as usize];
